@@ -468,7 +468,7 @@ pub fn c06() -> Property {
 // C07: parallel joins
 
 type ParRunner = for<'a, 'b> fn(&'a mut Fetched<'b>, u8) -> Vec<Vec<ItemVal>>;
-type SplitRunner = for<'a, 'b> fn(&'a mut Fetched<'b>, &[bool]) -> (usize, Vec<(usize, Vec<ItemVal>)>);
+type SplitRunner = for<'a, 'b> fn(&'a mut Fetched<'b>, &[bool], usize) -> (usize, Vec<(usize, Vec<ItemVal>)>);
 
 pub struct ParShape {
     pub name: &'static str,
@@ -515,13 +515,16 @@ macro_rules! par_shape {
                         }),
                 }
             },
-            split: |$f: &mut Fetched, decisions: &[bool]| {
+            split: |$f: &mut Fetched, decisions: &[bool], full_depth: usize| {
                 $($pre;)*
                 let mut k = 0usize;
                 let mut out = vec![];
                 let leaves = verif_par_join_split_tree(
                     ($($m,)+),
                     |depth| {
+                        if depth < full_depth {
+                            return true;
+                        }
                         let d = depth < 24 && decisions.get(k).cloned().unwrap_or(false);
                         k += 1;
                         d
@@ -568,6 +571,8 @@ pub struct ParCase {
     pub threads: Option<u16>,
     pub variant: u8,
     pub decisions: Vec<bool>,
+    /// owned split tree: split unconditionally down to this depth, then follow `decisions`
+    pub full_depth: u8,
 }
 
 const POOLS: [usize; 8] = [1, 2, 3, 4, 7, 16, 64, 256];
@@ -579,8 +584,9 @@ fn par_case() -> impl Strategy<Value = ParCase> {
         proptest::option::weighted(0.5, 0u16..8),
         0u8..3,
         proptest::collection::vec(prop::bool::weighted(0.7), 0..40),
+        prop_oneof![3 => Just(0u8), 2 => 1u8..6, 2 => 6u8..15],
     )
-        .prop_map(|(shape, membership, threads, variant, decisions)| ParCase { shape, membership, threads, variant, decisions })
+        .prop_map(|(shape, membership, threads, variant, decisions, full_depth)| ParCase { shape, membership, threads, variant, decisions, full_depth })
 }
 
 thread_local! {
@@ -628,11 +634,11 @@ fn c07_one(case: &ParCase, stats: &mut Stats, prop: &'static str, filter: fn(&Pa
         }
         None => {
             let mut f = jw.fetch();
-            let (leaves, items) = (shape.split)(&mut f, &case.decisions);
+            let (leaves, items) = (shape.split)(&mut f, &case.decisions, case.full_depth as usize);
             // leaves must partition the sequential sequence: leaf numbers ascending <=> contiguous
             let seq_only: Vec<Vec<ItemVal>> = items.iter().map(|x| x.1.clone()).collect();
             let _ = seq_only;
-            (format!("split tree of [{}] with {} leaves (decisions {:?})", shape.name, leaves, case.decisions), items.into_iter().map(|x| x.1).collect(), leaves)
+            (format!("split tree of [{}] with {} leaves (split fully to depth {}, then decisions {:?})", shape.name, leaves, case.full_depth, case.decisions), items.into_iter().map(|x| x.1).collect(), leaves)
         }
     };
     let errs = with_ledger(|l| l.take_errors());
@@ -684,6 +690,12 @@ fn c07_one(case: &ParCase, stats: &mut Stats, prop: &'static str, filter: fn(&Pa
     if leaves >= 3 {
         stats.label("leaves>=3");
     }
+    if leaves >= 1024 {
+        stats.label("leaves>=1024");
+    }
+    if expected.len() >= 65_536 {
+        stats.label("intersection>=65536");
+    }
     stats.case(case, expected.len() >= 2 && l1.len() >= 2 && (leaves >= 2));
     Ok(())
 }
@@ -707,7 +719,7 @@ pub fn c07() -> Property {
             shards: |t: Tier| t.pick(8, 16),
             run: c07_run,
             replay: c07_replay,
-            rule: "14 ParJoin-capable shapes (shared / mutable storages of the six DistinctStorage kinds, entities, bit sets, negation, maybe(), restricted storages, arity up to 9) x generated membership (as C06: dense, sparse, straddling the 64 / 4096 / 262144 / 524288 boundaries) executed (a) on real rayon pools of {1,2,3,4,7,16,64,256} threads through map+collect, for_each and fold+reduce, (b) through the split-tree hook with a generated Vec<bool> deciding every split (owned schedule of the index-space partition); oracle: multiset of delivered (index, components) items == sequential join on an identical world, every mutable component of the intersection written exactly once and nothing else changed; non-trivial = intersection of >= 2 indices over >= 2 layer-1 words and >= 2 threads / leaves",
+            rule: "14 ParJoin-capable shapes (shared / mutable storages of the six DistinctStorage kinds, entities, bit sets, negation, maybe(), restricted storages, arity up to 9) x generated membership (as C06: dense, sparse, straddling the 64 / 4096 / 262144 / 524288 boundaries) executed (a) on real rayon pools of {1,2,3,4,7,16,64,256} threads through map+collect, for_each and fold+reduce, (b) through the split-tree hook: split unconditionally to a generated depth (0..14, i.e. up to 16384 leaves) and then follow a generated Vec<bool> (owned schedule of the index-space partition; nearly-full masks of up to 270000 indices make deep trees real); oracle: multiset of delivered (index, components) items == sequential join on an identical world, every mutable component of the intersection written exactly once and nothing else changed; non-trivial = intersection of >= 2 indices over >= 2 layer-1 words and >= 2 threads / leaves",
             exe_env: None,
         }],
         crash_is_violation: true,
@@ -804,7 +816,7 @@ fn cs_case(with_bomb: bool) -> impl Strategy<Value = CsCase> {
         crate::stoseq::pool_strategy(),
         proptest::collection::vec((any::<u16>(), 1u32..100_000), 0..24),
         (any::<u8>(), any::<u8>()),
-        0u8..8,
+        0u8..10,
         joinworld::index_set(),
         proptest::option::of(0u8..4),
         if with_bomb { any::<u8>().prop_map(Some).boxed() } else { Just(None).boxed() },
@@ -826,7 +838,7 @@ fn cs_one(case: &CsCase, prop: &'static str) -> Result<CsFacts, Violation> {
         let cands: Vec<Entity> = match &case.pool {
             crate::stoseq::Pool::Dense(n) => w.create_iter().take((*n as usize).clamp(1, 60)).collect(),
             crate::stoseq::Pool::Sparse { total, picks } => {
-                let total = (*total as usize).clamp(2, 3000);
+                let total = (*total as usize).clamp(2, 6000);
                 let all: Vec<Entity> = w.create_iter().take(total).collect();
                 let mut set = BTreeSet::new();
                 for p in picks.iter().take(24) {
@@ -910,7 +922,7 @@ fn cs_one(case: &CsCase, prop: &'static str) -> Result<CsFacts, Violation> {
         let want: Vec<(u32, joinworld::Ident, Vec<u32>)> = keys.iter().filter(|i| in_storage.contains(i)).map(|i| (*i, svals[i], model[i].clone())).collect();
         ensure!(prop, "changeset-storage-join", with_st == want, "(&bitset,&storage,&changeset).join() yields {:?}, expected {:?}", with_st, want);
     }
-    match case.mode % 4 {
+    match case.mode % 5 {
         0 => {
             // mutable join: append a marker to a prefix
             let mut k = 0;
@@ -947,6 +959,26 @@ fn cs_one(case: &CsCase, prop: &'static str) -> Result<CsFacts, Violation> {
             }
             let want: Vec<(u32, Vec<u32>)> = model.iter().take(limit).map(|(k, v)| (*k, v.clone())).collect();
             ensure!(prop, "changeset-consume", got == want, "consuming the change set yields {:?}, expected each accumulated amount once: {:?}", got, want);
+        }
+        4 => {
+            // by value through the lending join, fully or partially consumed
+            let limit = case.take.map(|t| t as usize).unwrap_or(usize::MAX);
+            let mut got = vec![];
+            {
+                let mut j = (cs, &all_bits).lend_join();
+                while got.len() < limit {
+                    match j.next() {
+                        Some((a, i)) => {
+                            a.check().map_err(|m| vio("C08", "exposed-dead-value", format!("by-value change set item (lend_join): {}", m)))?;
+                            got.push((i, a.parts.clone()));
+                            zoo::caller_drop(a);
+                        }
+                        None => break,
+                    }
+                }
+            }
+            let want: Vec<(u32, Vec<u32>)> = model.iter().take(limit).map(|(k, v)| (*k, v.clone())).collect();
+            ensure!(prop, "changeset-consume", got == want, "consuming the change set through lend_join yields {:?}, expected each accumulated amount once: {:?}", got, want);
         }
         2 => {
             // by value joined with the storage
@@ -1024,7 +1056,7 @@ fn c16_run(ctx: &ShardCtx) -> ShardResult {
     let cases = ctx.tier.pick(8000, 40_000);
     run_proptest(ctx, cs_case(false), cases, 16, |c, stats| {
         let f = cs_one(c, "C16")?;
-        stats.label(&format!("mode.{}", ["mutable-joins", "consume", "consume-with-storage", "clear-reuse"][c.mode as usize % 4]));
+        stats.label(&format!("mode.{}", ["mutable-joins", "consume", "consume-with-storage", "clear-reuse", "consume-lending"][c.mode as usize % 5]));
         stats.case(c, f.nontrivial);
         Ok(())
     })
@@ -1050,7 +1082,7 @@ fn c08_cs_run(ctx: &ShardCtx) -> ShardResult {
     let cases = ctx.tier.pick(2000, 15_000);
     run_proptest(ctx, cs_case(false), cases, 17, |c, stats| {
         let f = cs_one(c, "C16")?;
-        stats.case(c, f.nontrivial && (c.mode % 4 == 1 || c.mode % 4 == 3));
+        stats.case(c, f.nontrivial && (c.mode % 5 == 1 || c.mode % 5 == 3 || c.mode % 5 == 4));
         Ok(())
     })
 }
